@@ -243,7 +243,7 @@ impl<P: Protocol> Sim<P> {
         let adv: Vec<u16> = cfg.advertise_addresses.iter().filter_map(|a| a.parse::<SocketAddr>().ok()).map(|a| port_of(&a)).collect();
         let post = self.post(i);
         self.tev(json!({"op":"boot","n":i + 1,"inc":self.nodes[i].inc,"T":cfg.peer_timeout,"st":cfg.switch_timeout,"ka":cfg.keepalive.map(|k| k as i64).unwrap_or(-1),"fresh":true,
-                        "claims":cfg.claims,"learn":learn,"bc":bc,"key":own,"trusted":trusted,"plain":plain,"adv":adv,"nat":self.nodes[i].nat,"post":post}));
+                        "claims":cfg.claims,"learn":learn,"bc":bc,"mode":format!("{:?}", cfg.mode).to_lowercase(),"dev":if cfg.device_type == crate::device::Type::Tap { "tap" } else { "tun" },"key":own,"trusted":trusted,"plain":plain,"adv":adv,"nat":self.nodes[i].nat,"post":post}));
     }
 
     fn nid(&self, id: &[u8; 16]) -> Value {
